@@ -55,7 +55,7 @@ Print Assumptions C17_race_free.
 
 Theorem C17_access_table_ok :
   forallb (wf_task code_parallel) modes && t_tls code_parallel && exec_local_only code_parallel
-  && forallb (wf_task code_nonparallel) modes && code_nonparallel_forced_single = true.
+  && forallb (wf_task code_nonparallel) modes && code_nonparallel_forced_single && negb code_set_threads_can_override = true.
 Proof. exact (@access_table_ok). Qed.
 Print Assumptions C17_access_table_ok.
 
